@@ -30,13 +30,12 @@ theorem irtext_reader_no_error_on_printed_fragment (fmt : Nat → List Char) (fp
     ∃ m', parseToks fparse (toksModule fmt m) = .ok m' :=
   ⟨_, (Props.C15.roundtrip_tokens_partial fmt fparse m h hfp).1⟩
 
-/-- **IR text reader, character level**, under C15's tokenizer hypothesis (evaluated per module by C15's run). -/
+/-- **IR text reader, character level** (tokenizer included; C15 proves the lexical step for the fragment). -/
 theorem irtext_read_no_error_on_printed_fragment (fmt : Nat → List Char) (fparse : String → Option Nat)
     (m : Module) (h : fragText fmt m = true)
-    (hfp : ∀ b ∈ Props.C15.floatsOf m, fparse (String.ofList (fmt b)) = some b)
-    (hlex : tokenize (printModule fmt m) = .ok (toksModule fmt m)) :
+    (hfp : ∀ b ∈ Props.C15.floatsOf m, fparse (String.ofList (fmt b)) = some b) :
     ∃ m', readModule fparse (printModule fmt m) = .ok m' :=
-  ⟨_, (Props.C15.roundtrip_partial fmt fparse m h hfp hlex).1⟩
+  ⟨_, (Props.C15.roundtrip_partial fmt fparse m h hfp).1⟩
 
 /-- **C3 `gen_binop`**: for every operator and every integer type of both targets the operator string and the
     type name handed to `ir.Binop` resolve (no failed lookup). -/
